@@ -191,8 +191,9 @@ func (p *pathCtx) litAtom(s string) string {
 	if u, err := url.Parse(s); err == nil && u.Scheme != "" && u.Host != "" {
 		h := p.litAtom(u.Host)
 		p.sol.send("(assert (= (iri_host " + name + ") " + h + "))\n")
-	} else if !strings.Contains(s, ".") {
-		// a literal that is no absolute URL (and no host name) is never the value of an IRI atom
+	} else if (err != nil || u.Scheme == "") && !strings.Contains(s, ".") {
+		// a literal without a scheme (and no host name) is never the value of an IRI atom
+		// ("as:Public" has a scheme and stays a possible value)
 		p.nonURLLits = append(p.nonURLLits, name)
 		for _, a := range p.iriAtoms {
 			p.sol.send("(assert (distinct " + a + " " + name + "))\n")
